@@ -84,6 +84,8 @@ def cases(seed, quick):
                     out.append({"kind": name, "bits": bits, "signed": signed, "text": list(t), "s": t, "variant": rng.choice(["plain", "ptr", "named"]), "shape": "joinedsp"})
             if rng.random() < 0.3:       # the same scalar field captured twice: every capture is converted, the last one is kept
                 out.append({"kind": name, "bits": bits, "signed": signed, "text": list(t), "s": t, "variant": rng.choice(["plain", "ptr", "named"]), "shape": rng.choice(["multifirst", "multilast"])})
+            if rng.random() < 0.3:       # a typed wildcard literal ("":Num) instead of the token reference
+                out.append({"kind": name, "bits": bits, "signed": signed, "text": list(t), "s": t, "variant": rng.choice(["plain", "ptr", "named", "slice"]), "shape": "typedwild"})
             r = rng.random()
             if r < 0.25:
                 out.append({"kind": name, "bits": bits, "signed": signed, "text": list(t), "s": t, "variant": rng.choice(["ptr", "named", "slice", "slicegrp", "ptrnamed"]), "shape": "single"})
